@@ -1437,3 +1437,11 @@ mod tests {
         );
     }
 }
+
+#[cfg(feature = "verif-hooks")]
+impl DynamicTable {
+    /// (current size in bytes, maximum size in bytes, number of entries)
+    pub fn verif_sizes(&self) -> (usize, usize, usize) {
+        (self.curr_size, self.max_size, self.fields.len())
+    }
+}
